@@ -762,6 +762,16 @@ func (w *cWorld) runConcurrent(progs [][]cOp, yieldSeed uint64, viaRPC bool, wat
 }
 
 func (w *cWorld) runConcurrentFrom(progs [][]cOp, yieldSeed uint64, viaRPC bool, watchdog time.Duration, pause *pauseSpec, clock0 int64) cRun {
+	// (the helper goroutine of a device-access pause reports through an atomic: it may still be running when the run returns)
+	var diskPaused atomic.Bool
+	run := w.runConcurrentFrom1(progs, yieldSeed, viaRPC, watchdog, pause, clock0, &diskPaused)
+	if diskPaused.Load() {
+		run.Paused = true
+	}
+	return run
+}
+
+func (w *cWorld) runConcurrentFrom1(progs [][]cOp, yieldSeed uint64, viaRPC bool, watchdog time.Duration, pause *pauseSpec, clock0 int64, diskPaused *atomic.Bool) cRun {
 	clock := clock0
 	var mu sync.Mutex
 	var ops []porcupine.Operation
@@ -780,7 +790,7 @@ func (w *cWorld) runConcurrentFrom(progs [][]cOp, yieldSeed uint64, viaRPC bool,
 		go func() {
 			select {
 			case <-dp.Reached():
-				run.Paused = dp.Paused.Load()
+				diskPaused.Store(dp.Paused.Load())
 				reachedOnce.Do(func() { close(reached) })
 			case <-othersDone:
 			}
